@@ -36,11 +36,12 @@ finally:
 print(json.dumps(res, indent=1))
 print('CONFIRMED' if (ok_existing and demo_fails and demo_passes) else 'NOT CONFIRMED', ok_existing, demo_fails, demo_passes)
 verdicts = {}
+scratch_out = tempfile.mkdtemp(prefix='seed-out-')   # findings / evidence of runs on a seeded tree never overwrite /verif/evidence
 if ok_existing and demo_fails and demo_passes:
     subprocess.run(['git', '-C', '/repo', 'apply', patch], check=True)
     try:
         for c in checks:
-            r = subprocess.run(['/verif/check', c], capture_output=True, text=True)
+            r = subprocess.run(['/verif/check', c], capture_output=True, text=True, env=dict(os.environ, VERIF_OUT=scratch_out))
             lines = [l for l in r.stdout.splitlines() if l.startswith('  rule') or l.startswith('[') or l.startswith('KNOWN')]
             verdicts[c] = {'exit': r.returncode, 'lines': [l[:300] for l in lines[:10]]}
             print(c, 'exit', r.returncode)
@@ -57,3 +58,4 @@ if ok_existing and demo_fails and demo_passes:
                                                'git -C /repo apply patch.diff; ./check <id>; git -C /repo checkout -- .'],
              'checks_run': verdicts, 'detected_by': [c for c, v in verdicts.items() if v['exit'] == 1]}
     json.dump(meta2, open(os.path.join(out, 'meta.json'), 'w'), indent=1)
+shutil.rmtree(scratch_out, ignore_errors=True)
